@@ -68,6 +68,9 @@ let () =
       | "eq" -> b01 (c10_eq (a ()) (b ())), b01 (c10_spec_cmp CmpEq (va ()) (vb ()))
       | "ne" -> b01 (c10_ne (a ()) (b ())), b01 (c10_spec_cmp CmpNe (va ()) (vb ()))
       | "assign" -> let x = n_of_hex t.(2) in hex_of_big (c10_assign nn x), pad_hex n (hex_of_n (N.modulo x (N.pow (n_of_int 2) (c10_spec_width nn))))
+      | "signed" -> let x = int_of_string t.(2) in
+          if x < 0 then "EXC Exception", "EXC Exception"
+          else hex_of_big (c10_assign nn (n_of_int x)), pad_hex n (hex_of_n (N.modulo (n_of_int x) (N.pow (n_of_int 2) (c10_spec_width nn))))
       | "touint" -> string_of_int (int_of_n (c10_touint (a ()))), string_of_int (int_of_n (N.modulo (va ()) (N.pow (n_of_int 2) (n_of_int 32))))
       | "todouble" -> canon_me (c10_todouble (a ())), "VAL " ^ hex_of_n (va ())
       | "print" -> String.concat "" (List.map (fun c -> String.make 1 (char_of_ascii c)) (c10_print (a ()))), pad_hex n (hex_of_n (va ()))
